@@ -400,6 +400,59 @@ pub fn run(args: &[String]) -> i32 {
         rep.cov("several_files_of_one_crate", json!({"runs": jobs2.len(), "arrival_orders": 24, "languages": ["typescript", "kotlin", "swift"], "layout": "crate shared (1 file), crate api (3 files: one defines a type of the same name as an imported one)"}));
         rep.cov_add("evaluations", jobs2.len() as u64);
     }
+    // 5c. source files that belong to two crates (symbolic links in the second crate), multi-file mode, free running at
+    //     several thread counts: both crates' files have every type, and the bytes are the same in every run
+    {
+        let n = 12usize;
+        let mut files: Vec<(String, String, String)> = Vec::new();
+        for i in 0..n {
+            files.push((format!("m{i:02}"), "alpha".into(), format!("#[typeshare]\npub struct Shared{i:02} {{ pub v{i}: u32 }}\n")));
+        }
+        for i in 0..n {
+            files.push((format!("l{i:02}"), "beta".into(), format!("->alpha/m{i:02}")));
+        }
+        files.push(("own".into(), "beta".into(), "#[typeshare]\npub struct OwnOfBeta { pub b: u32 }\n".into()));
+        let mut jobs3: Vec<(Lang, usize)> = Vec::new();
+        for lang in [Lang::TypeScript, Lang::Kotlin] {
+            for t in [1usize, 2, 3, 4, 8, 16] {
+                for _ in 0..(if thorough { 6 } else { 3 }) {
+                    jobs3.push((lang, t));
+                }
+            }
+        }
+        let res3: Vec<Replay> = par_map(&jobs3, report::threads(), |(lang, t)| e3::replay_crates(&files, &[], *lang, *t));
+        let mut per_lang: BTreeMap<&'static str, BTreeMap<String, usize>> = BTreeMap::new();
+        for (i, ((lang, t), r)) in jobs3.iter().zip(res3.iter()).enumerate() {
+            if r.class != "ok" {
+                rep.vios.add(Violation { sig: format!("C06|run-failed:{}|family=files-shared-by-two-crates|{}", r.class, lang.name()), detail: json!({"argv": r.argv, "threads": t, "stderr": r.stderr}) });
+                continue;
+            }
+            // the deterministic part: every shared type in both crates' outputs
+            let missing: Vec<String> = r.outputs.iter().flat_map(|(name, bytes)| {
+                let text = String::from_utf8_lossy(bytes).into_owned();
+                (0..n).filter(move |i| !text.contains(&format!("Shared{i:02}"))).map(move |i| format!("{name}: Shared{i:02}"))
+            }).collect();
+            if !missing.is_empty() || r.outputs.len() != 2 {
+                rep.vios.add(Violation {
+                    sig: format!("C06|output-depends-on-who-reaches-a-shared-file-first|files-shared-by-two-crates|{}|mode=multi", lang.name()),
+                    detail: json!({"argv": r.argv, "threads": t, "output_files": r.outputs.keys().collect::<Vec<_>>(), "missing": missing, "layout": "crate alpha: 12 files; crate beta: 12 symbolic links to them + 1 own file"}),
+                });
+            }
+            per_lang.entry(lang.name()).or_default().entry(outputs_key(r)).or_insert(i);
+        }
+        for (lang, outs) in &per_lang {
+            if outs.len() > 1 {
+                let idx: Vec<usize> = outs.values().copied().collect();
+                rep.vios.add(Violation {
+                    sig: format!("C06|nondeterministic-output|scheduling|files-shared-by-two-crates|{lang}|mode=multi"),
+                    detail: json!({"distinct_outputs": outs.len(), "run_a": {"threads": jobs3[idx[0]].1, "files": res3[idx[0]].outputs.iter().map(|(k, v)| (k.clone(), v.len())).collect::<Vec<_>>()},
+                        "run_b": {"threads": jobs3[idx[1]].1, "files": res3[idx[1]].outputs.iter().map(|(k, v)| (k.clone(), v.len())).collect::<Vec<_>>()}}),
+                });
+            }
+        }
+        rep.cov("files_shared_by_two_crates", json!({"runs": jobs3.len(), "thread_counts": [1, 2, 3, 4, 8, 16], "schedule": "free running (observed, not forced)", "languages": ["typescript", "kotlin"], "layout": "crate alpha: 12 files; crate beta: 12 symbolic links to them + 1 own file"}));
+        rep.cov_add("evaluations", jobs3.len() as u64);
+    }
     // 6. hash-order family (in-process, forced iteration orders)
     hashorder::c06_family(&mut rep);
     hashorder::c06_internal_sets_family(&mut rep);
